@@ -217,6 +217,12 @@ func runHarness(l *Loaded, base *State, e *Engine, fn *ssa.Function, tier int, c
 		func() {
 			defer func() {
 				if r := recover(); r != nil {
+					if _, ok := r.(abortHarness); ok {
+						return
+					}
+					if a, ok := r.(annotated); ok && strings.Contains(a.msg, "abortHarness") {
+						return
+					}
 					if u, ok := r.(*Unsupported); ok {
 						res.Errors = append(res.Errors, fmt.Sprintf("%s[%v]: %s", fn.Name(), h.choices, u.Msg))
 						return
